@@ -79,6 +79,11 @@ def judge_code(acc, f, ovf, c, route, part):
     return x
 
 
+def un2(p, n):
+    """n-bit pattern -> signed code"""
+    return p - (1 << n) if p >> (n - 1) else p
+
+
 def judge_object(acc, f, cs, part):
     """rendering and bitwise operators on an object holding the in-range codes cs (array) and on scalars"""
     n = f.n_word
@@ -103,6 +108,10 @@ def judge_object(acc, f, cs, part):
             acc.violation('render', case, '%s: bin() differs' % f.dtype, {'part': part, 'aspect': 'bin'})
         if [str(s) for s in x.hex()] != ['0x' + hex_image(c, n) for c in cs]:
             acc.violation('render', case, '%s: hex() differs' % f.dtype, {'part': part, 'aspect': 'hex'})
+        x.bin(frac_dot=True), x.base_repr(10), x.raw(), x.uraw(), x.get_val(), str(x), x.astype(int) if f.n_frac == 0 else None
+        if codes(x) != cs or [int(v) for v in np.asarray(x.raw(), dtype=object).ravel().tolist()] != cs:
+            acc.violation('operand_changed', case, '%s: rendering / reading changed the stored codes: %s...' % (f.dtype, codes(x)[:3]), {'part': part, 'aspect': 'purity'})
+            return
         mask = (1 << n) - 1
 
         def un(p):
@@ -114,8 +123,21 @@ def judge_object(acc, f, cs, part):
                ('|y', lambda: x | y, [un((c % (1 << n)) | m1) for c in cs]),
                ('^mask', lambda: x ^ m1, [un((c % (1 << n)) ^ m1) for c in cs]),
                ('mask&', lambda: m1 & x, [un((c % (1 << n)) & m1) for c in cs]))
+        # the same with an operand of the OTHER signedness (same bit pattern), on either side
+        yo = Fxp(m1 if f.signed else un2(m1, n), not f.signed, n, 0, raw=True)
+        m2 = m1 | (1 << (n - 1))                      # top bit set: a negative code when signed, a value >= 2^(n-1) when unsigned
+        yt = Fxp(m2 if f.signed else un2(m2, n), not f.signed, n, 0, raw=True)
+        ops = ops + (('&y_other_sign', lambda: x & yo, [un((c % (1 << n)) & m1) for c in cs]),
+                     ('|y_other_sign', lambda: x | yo, [un((c % (1 << n)) | m1) for c in cs]),
+                     ('^y_other_sign', lambda: x ^ yo, [un((c % (1 << n)) ^ m1) for c in cs]),
+                     ('&y_other_sign_top', lambda: x & yt, [un((c % (1 << n)) & m2) for c in cs]),
+                     ('|y_other_sign_top', lambda: x | yt, [un((c % (1 << n)) | m2) for c in cs]),
+                     ('^y_other_sign_top', lambda: x ^ yt, [un((c % (1 << n)) ^ m2) for c in cs]))
         for name, fn, exp in ops:
             z = fn()
+            if codes(x) != cs:
+                acc.violation('operand_changed', dict(case, op=name), '%s: %s changed the codes of its operand' % (f.dtype, name), {'part': part, 'op': name, 'aspect': 'purity'})
+                return
             if codes(z) != exp or fmt_of(z) != f or flags(z)[:2] != (False, False):
                 i = [j for j in range(len(cs)) if codes(z)[j] != exp[j]]
                 acc.violation('bitwise', dict(case, op=name), '%s: %s on code %d gives %d, expected %d (flags %s)'
